@@ -416,7 +416,7 @@ class Machine:
                 xs = [c[0] for c in corners]
                 ys = [c[1] for c in corners]
                 bbox = (min(xs), min(ys), max(xs), max(ys))
-                self.events.append(("glyph", {"matrix": m, "adv": adv, "bbox": bbox, "size": bbox[3] - bbox[1], "fontname": font.fontname, "ncolor": g.ncolor, "code": code, "kind": font.kind, "text": getattr(font, "textmap", {}).get(code)}))
+                self.events.append(("glyph", {"matrix": m, "adv": adv, "bbox": bbox, "size": bbox[3] - bbox[1], "fontname": font.fontname, "ncolor": g.ncolor, "ncs": g.ncs, "code": code, "kind": font.kind, "text": getattr(font, "textmap", {}).get(code)}))
                 pen += adv + g.Tc * g.Th
                 if font.bpc == 1 and code == 32:
                     pen += g.Tw * g.Th
